@@ -17,6 +17,7 @@ def nf_tree(fn, ctx):
     equiv._Strip().visit(g)
     equiv.separate_scopes(g)
     equiv.Inliner(ctx, g).run()
+    equiv.separate_scopes(g)
     norm = equiv.Normaliser(bound_names=equiv._param_names(g), list_locals=equiv._list_locals(g))
     prev = None
     for _ in range(8):
